@@ -15,7 +15,8 @@ func init() {
 			"decodeLine/decodeTimestamp and vice versa; (message-normalised) Encode uses Entry.Message only as the argument of normalizeMessage, and normalizeMessage returns strings.Join(strings.Fields(…), \" \"), so no line break or run of " +
 			"blanks can reach the file; (line-format) the two format strings of Encode differ only by the tab-separated message, name/e-mail/time/zone are laid out as '%s <%s> %d %c%02d%02d', and every separator byte of the format " +
 			"(space, '<', '>', tab, newline) is one the decoder splits on; (append-only) DotGit.ReflogWriter opens the log with O_APPEND|O_CREATE and without O_TRUNC and the filesystem storer writes through it. " +
-			"Not decided: that git lists the same values; time-zone arithmetic; identities containing '<', '>' or line breaks.",
+			"(zone-sign-whole-offset) the decoder negates the combined hours-and-minutes offset on the edge that tests the sign character (or negates the minutes under a test of the sign character when the sign is parsed with the hours); " +
+			"taking the minutes' sign from the parsed hours, or leaving them unsigned, is reported; other shapes are reported as not decided. Not decided: that git lists the same values; identities containing '<', '>' or line breaks.",
 		Assumptions: []string{"fmt and strings behave as documented"},
 		Run:         runC52,
 	})
